@@ -1,6 +1,7 @@
 INIT Init
 NEXT Next
 CONSTANTS
-  Part = "cong"
+  Part = "between"
+  Flaws = {"OriginalComplexOrdering"}
   Thorough = FALSE
 INVARIANT ImplRefines_
